@@ -115,7 +115,7 @@ class Stream(io.TextIOBase):
         if not s:
             return 0
         if self.buffered:
-            if INJ.tick("write") is not None:  # nothing reaches the terminal from a buffered write
+            if INJ.tick("write", "") is not None:  # nothing of an interrupted buffered write reaches the terminal
                 raise INJ.exc()
             self.buf += s
             return len(s)
@@ -424,13 +424,31 @@ class RunResult:
     pass
 
 
+def clear_string(d, size, pad_left) -> str:
+    """what the tracked renderable's `_clear_frame_` writes. `clear_mode`: a REAL hook following the documented contract
+    (called with the cursor at the top-left cell of the render region, leaves it there, does not scroll) —
+    "erase": a text renderable erasing the previous frame (ECH per line); "delz": a graphics renderable deleting the
+    previous frame's placements by z-index. Otherwise the literal `clear` string of the case (C07)."""
+    mode = d.get("clear_mode")
+    w, h = size
+    if mode == "erase":
+        nl = "\n" + ctl.cursor_forward(pad_left)
+        return (ctl.ERASE_CHARS % w) + (nl + ctl.ERASE_CHARS % w) * (h - 1) + "\r" + ctl.cursor_up(h - 1) + ctl.cursor_forward(pad_left)
+    if mode == "delz":
+        return ctl.KITTY_DELETE_Z_INDEX % 0
+    return d.get("clear", "")
+
+
 def run_new(d) -> RunResult:
     frames, size = source_frames(d)
     r = RunResult()
     r.size = size
-    rend = (ScriptedIndef if d.get("indefinite") else Scripted)(frames, size, clear=d.get("clear", ""), hook=d.get("hook", ""))
-    rargs = {None: None, "parent": RenderArgs(Renderable), "exact": RenderArgs(type(rend))}[d.get("rargs")]
     padding = make_padding(d, size)
+    l0 = (padding.resolve(os.terminal_size((d["W"], d["H"]))) if isinstance(padding, AlignedPadding)
+          else padding)._get_exact_dimensions_(Size(*size))[0]
+    clear = clear_string(d, size, l0)
+    rend = (ScriptedIndef if d.get("indefinite") else Scripted)(frames, size, clear=clear, hook=d.get("hook", ""))
+    rargs = {None: None, "parent": RenderArgs(Renderable), "exact": RenderArgs(type(rend))}[d.get("rargs")]
     ft = FakeTermios(d.get("tattr", "default"))
     new_mod.termios = ft
     out = Stream(d["tty"], buffered=bool(d.get("buffered")))
@@ -467,6 +485,7 @@ def run_new(d) -> RunResult:
             r.outcome = "err " + type(e).__name__
     finally:
         sys.stdout = so
+        r.delivered = out.getvalue()  # what had REACHED the terminal when draw() returned / raised
         out.drain()
         RenderIterator.close, RenderIterator.__next__ = orig_close, orig_next
     r.stream, r.ft = out, ft
@@ -491,7 +510,7 @@ def run_new(d) -> RunResult:
     r.pad = (l, t, rr, b)
     r.cfg = (f"{size[0]} {size[1]} {l} {t} {rr} {b} {fill_wire(padding.fill)} {int(d['tty'])} {int(d['hide'])} "
              f"{int(d['echo'])} {int(animation)} {int(d['check_size'])} {int(d['allow_scroll'])} {d['W']} {d['H']} "
-             f"{toks_wire(d.get('clear', ''))} {toks_wire(d.get('hook', ''))}")
+             f"{toks_wire(clear)} {toks_wire(d.get('hook', ''))}")
     r.box = (l + size[0] + rr, t + size[1] + b)
     r.inner = (t, l, size[0], size[1])
     return r
@@ -809,6 +828,8 @@ def random_config(rng: random.Random, tier: str, api=None) -> dict:
         d["term"] = rng.choice(["", "kitty"])
     if api == "new":
         d["rargs"] = rng.choice([None, None, "parent", "exact"])  # what draw() is given as `render_args`
+        # a renderable whose `_clear_frame_` is real (see `clear_string`)
+        d["clear_mode"] = rng.choice({"block": [None, "erase", "erase"], "kitty": [None, "delz", "delz"]}.get(style, [None]))
         if d["nframes"] >= 3 and rng.random() < 0.25:
             d.update(indefinite=True, loops=-1, cache=100)
     return d
@@ -1012,6 +1033,16 @@ class C06(Property):
             d = finish_geometry(rng, d, "fits")
             d["op"] = "trace"
             yield Case("", d, "new-indefinite-anim", True)
+        # old-API iterm2 animations on WezTerm with mix=False (drawn over existing text, see `_oracle_over_text`)
+        for method in ("lines", "whole", "lines", "whole"):
+            d = random_config(rng, tier, "old")
+            d.update(style="iterm2", term="wezterm", method=method, mix=False, nframes=rng.choice([2, 3]), animate=True,
+                     loops=1, tty=True, check_size=True, allow_scroll=False, cols=rng.randrange(2, 7), lines=rng.randrange(1, 5))
+            for k in ("kitty_version", "z_index", "compress", "frame_kinds"):
+                d.pop(k, None)
+            d = finish_geometry(rng, d, "fits")
+            d["op"] = "trace"
+            yield Case("", d, "old-iterm2-wezterm-nomix", True)
         # old-API kitty animations with style arguments passed to draw(), on kitty <= 0.25.0 (frames cleared by z-index)
         # and > 0.25.0 (cleared by delete-at-cursor), partly transparent frames: a frame left behind shows through
         # … and on an application SUBCLASS in a fresh support state (the base class never probed)
@@ -1182,6 +1213,13 @@ class C06(Property):
             want = cells_of(a["writes"])
             if anim:
                 want.update(cells_of(b["writes"]))
+            if anim and d.get("clear_mode") == "delz" and d["style"] == "kitty" and len(frames) > 1:
+                # the graphics hook deletes the previous frame's placements before each later frame is drawn: what is on
+                # screen afterwards are the LAST frame's placements
+                if sorted(got_state["imgs"]) != sorted(b["imgs"]):
+                    return Failure(f"placements/{where}/clear-hook",
+                                   f"after draw() the graphics placements on screen {sorted(got_state['imgs'])[:4]} are not the "
+                                   f"last frame's {sorted(b['imgs'])[:4]}: `_clear_frame_` did not run before the frame was drawn")
             inner = {(r0 + t + i, l + j) for i in range(h) for j in range(w)}
         else:
             import term_image.image.common as C  # the real `_format_render` places the last frame in the box
@@ -1209,6 +1247,10 @@ class C06(Property):
                                    f"after draw() {len(left)} graphics placements are on screen, the last frame has {len(last)}: "
                                    f"earlier frames were not cleared and show through the last one, e.g. {extra[:3]} "
                                    f"(kitty {d.get('kitty_version')}, style args z_index={d.get('z_index')} mix={d.get('mix')})")
+        if d["api"] == "old" and d["style"] == "iterm2" and d.get("term") == "wezterm" and not d.get("mix") and anim:
+            f = self._oracle_over_text(d, where, toks, W, H, kind, a)
+            if f:
+                return f
         got = cells_of(got_state["writes"])
         if d["api"] == "old" and d["style"] == "iterm2" and d.get("term") == "wezterm" and not d.get("mix") and anim:
             # the pre-erase blanks the image's cells first; every cell of the image is drawn over afterwards
@@ -1246,6 +1288,32 @@ class C06(Property):
                         return Failure(f"frame-cells/{where}", f"a frame was drawn over {len(cells)} cells that are not "
                                        f"the first frame's render rectangle ({len(inner)} cells), e.g. "
                                        f"{sorted(cells ^ inner)[:3]}")
+        return None
+
+    def _oracle_over_text(self, d, where, toks, W, H, kind, last_alone):
+        """WezTerm draws an inline image OVER what the cells hold (text shows through transparent pixels; the library
+        says so: that is what `mix` is about). With `mix=False` every cell of the picture must have been blanked before
+        the image is put there. The box is pre-loaded with text, the draw is run over it, and every image cell must have
+        received an erase / a blank after the pre-load."""
+        bw, bh = d["_box"]
+        if bh > H or bw > W:
+            return None
+        img_cells = {(r, c) for r, c, v in last_alone["writes"] if v == "i"}  # the last frame alone, placed at the box
+        rows = sorted({r for r, _ in img_cells})
+        if not rows:
+            return None
+        top = min(r for r, c, v in last_alone["writes"])
+        pre = "\n".join(["x" * bw] * bh) + "\r" + ctl.cursor_up(bh - 1)
+        pre_toks = tk.tokenize(pre)
+        st = parse_state(fw.run_driver(DRIVER, [
+            f"term.run {W} {H} {kind} 0 0 0 0 {tk.wire(pre_toks + toks)}"])[0])
+        after = st["writes"][bw * bh:]
+        cleared = {(r, c) for r, c, v in after if v.startswith("e:") or v.startswith("t:")}
+        want = {(r - top, c) for r, c in img_cells}
+        left = sorted(want - cleared)
+        if left:
+            return Failure(f"old-text/{where}", f"mix=False on WezTerm: {len(left)} cells of the picture were never blanked before the "
+                           f"image was drawn over them — the text that was there shows through, e.g. {left[:3]}")
         return None
 
     def search(self, rng, tier, reasons):
